@@ -118,8 +118,14 @@ func (v *c11) OnStep(x *Ctx, s *St, op Op, post *pf.GameState) string {
 			x.Violate("moves-chips:"+op.Kind, op.Kind+" changed the round pot", fmt.Sprint(pre.Status.CurrentRoundPot), fmt.Sprint(post.Status.CurrentRoundPot), op)
 		}
 	case "Call":
-		if !(b.Wager == post.Status.CurrentWager || b.StackSize == 0) {
-			x.Violate("call-not-level", "after a call the caller is neither level with the wager to match nor all-in", fmt.Sprintf("wager %d", post.Status.CurrentWager), fmt.Sprintf("wager %d stack %d", b.Wager, b.StackSize), op)
+		// level with the wager to match; a wager below the configured big blind (a short
+		// big blind, a tiny bet) is completed to the big blind by the engine's rule
+		target := pre.Status.CurrentWager
+		if bb := x.Run.Cfg.BB; target < bb {
+			target = bb
+		}
+		if !(b.StackSize == 0 || b.Wager == pre.Status.CurrentWager || b.Wager == target) {
+			x.Violate("call-not-level", "after a call the caller is neither level with the wager to match nor all-in", fmt.Sprintf("wager %d (or the big blind %d)", pre.Status.CurrentWager, x.Run.Cfg.BB), fmt.Sprintf("wager %d stack %d", b.Wager, b.StackSize), op)
 		}
 	case "Bet":
 		if op.Arg > 0 && op.Arg < a.StackSize {
